@@ -388,6 +388,9 @@ def verify_step(base, wd, harness, defines, l_inv, l_sel, l_goto, l_label, lc, n
     open(log, 'w').close()
     goto_lines = (l_goto, l_label, (l_label or 0) + 1)
     K = max(n, t, 8 * NB, 8 * TB) + 4
+    mseq = re.search(r'#define D_SEQ (\d+)', open(defines['DOC_FACTS'].strip('"')).read())
+    if mseq:
+        K = max(K, int(mseq.group(1)) + 4)   # the harness loops over the numbered executable elements
     out = {}
     # ---------- B
     a = os.path.join(wd, base + '.stepB.a.gb')
